@@ -322,6 +322,19 @@ func codecWorker(arg json.RawMessage) interface{} {
 						if !ok {
 							addV("roundtrip", j.Kind, desc, fmt.Sprint(err), diff, pan)
 						}
+						if j.Kind == "bucketmeta" {
+							// the library rewrites a bucket's meta record in place (WriteAt offset 0, no
+							// truncation): a record that replaces a longer one is followed by the old tail
+							// and must still decode to what was written
+							longer := nutsdb.VerifNewBucketMeta(fill(17, 5), fill(17, 7)).Encode()
+							if len(longer) > len(enc) {
+								img := append(append([]byte(nil), enc...), longer[len(enc):]...)
+								out.Records++
+								if ok, _, err, diff, pan := decode(img); !ok {
+									addV("roundtrip", j.Kind+"-over-longer", desc+" written over a longer record", fmt.Sprint(err), diff, pan)
+								}
+							}
+						}
 						check := func(img []byte, what string) {
 							_, absent, err, diff, pan := decode(img)
 							switch {
@@ -360,7 +373,7 @@ func init() {
 	customHandlers["codec"] = codecWorker
 	Registry["C21"] = func(r *Run) {
 		r.Level = "fault_enumeration"
-		r.Rule = "grid of records (entries: key/bucket lengths {0,1,2,17}, value lengths up to 300, all 14 flags, both statuses, 4 structure codes, extreme timestamps/TTLs/tx ids; root-index and bucket-meta records: start/end lengths {1,2,17}, extreme ids/offsets) -> real encoder and real writer -> exact round trip; then EVERY single-bit flip and EVERY truncation length of the stored bytes -> real decoder (DataFile.ReadAt over FileIO and MMap files, ReadBPTreeRootIdxAt, ReadBucketMeta); oracle: error, or absent, or field-for-field equal to what was written. distinct_nontrivial = corrupted images rejected or treated as absent"
+		r.Rule = "grid of records (entries: key/bucket lengths {0,1,2,17}, value lengths up to 300, all 14 flags, both statuses, 4 structure codes, extreme timestamps/TTLs/tx ids; root-index and bucket-meta records: start/end lengths {1,2,17}, extreme ids/offsets) -> real encoder and real writer -> exact round trip; then EVERY single-bit flip and EVERY truncation length of the stored bytes -> real decoder (DataFile.ReadAt over FileIO and MMap files, ReadBPTreeRootIdxAt, ReadBucketMeta; bucket-meta records also as the library rewrites them: in place over a longer record); oracle: error, or absent, or field-for-field equal to what was written. distinct_nontrivial = corrupted images rejected or treated as absent"
 		r.Assume = []string{"single-bit flips and prefix truncations only (no multi-bit bursts)"}
 		var args []interface{}
 		shards := 8
